@@ -15,11 +15,14 @@ R4 template closure       : every identifier in a framework-emitted right-hand-s
 import ast
 
 from .. import cfg as cfgmod
+from ..cfg import atomic_facts
+from ..inline import flatten
 from ..loader import AnalysisError, unparse, call_name
 from .. import effects
 from ..algebra import Reader
 from ..strdom import Str, Hole, SELF, EXTSECTOR, ext, lit
-from ..dataflow import target_names
+from ..dataflow import target_names, single_assign_subst, resolve_expr
+from ..loader import stmt_of
 
 TECHNIQUE = ('static analysis: source/sink (taint) analysis of placeholder names with the alias pass as only sanitiser, CFG '
              'order of the phases of Model.main, template-closure check of all framework right-hand sides over the effect traces')
@@ -45,18 +48,28 @@ def run(prog, check):
     if gv is None:
         raise AnalysisError('Sector.GetVariableName not found')
     check.saw(gv)
+    gv = flatten(prog, gv)
     g = cfgmod.build(gv)
     reg = [n for n in g.stmt_nodes() if n.kind == 'stmt' and any(isinstance(c, ast.Call) and call_name(c) == '_RegisterAlias' for c in ast.walk(n.ast))]
-    ok = False
-    for t in g.nodes:
-        if t.kind == 'test' and isinstance(t.ast, ast.Compare) and 'FullCode' in unparse(t.ast.left) and isinstance(t.ast.ops[0], ast.Eq) and \
-                isinstance(t.ast.comparators[0], ast.Constant) and t.ast.comparators[0].value == '':
-            te = [b for b, l in g.succ[t.id] if l is True]
-            fe = [b for b, l in g.succ[t.id] if l is False]
-            rT = g.reach(te, include_src=True)
-            rF = g.reach(fe, include_src=True)
-            if reg and all(n.id in rT for n in reg) and not any(n.id in rF for n in reg) and all(g.dominates(t, n) for n in reg):
-                ok = True
+
+    def fullcode_empty(n):
+        """True / False when reaching n implies FullCode == '' / != '', None when undetermined"""
+        for test, outcome in g.conditions_at(n):
+            for txt, val, e in atomic_facts(test, outcome):
+                if isinstance(e, ast.Compare) and len(e.ops) == 1 and isinstance(e.ops[0], ast.Eq):
+                    l, r = e.left, e.comparators[0]
+                    for x, y in ((l, r), (r, l)):
+                        if 'FullCode' in unparse(x) and isinstance(y, ast.Constant) and y.value == '':
+                            return val
+                if isinstance(e, ast.Call) and call_name(e) == 'len' and e.args and 'FullCode' in unparse(e.args[0]):
+                    return not val
+                if isinstance(e, ast.Attribute) and e.attr == 'FullCode':
+                    return not val
+        return None
+    rets_ = [n for n in g.stmt_nodes() if n.kind == 'stmt' and isinstance(n.ast, ast.Return)]
+    canonical = [n for n in rets_ if n.ast.value is not None and 'FullCode' in unparse(n.ast.value)]
+    ok = bool(reg) and all(fullcode_empty(n) is True for n in reg) and bool(canonical) and \
+        all(fullcode_empty(n) is False for n in canonical)
     check.ob('C05.R1', '%s::placeholder-iff-no-fullcode' % gv.key, ok, gv.where,
              'a placeholder is registered and returned exactly when FullCode is empty' if ok else
              'the placeholder branch is not exactly the FullCode == \'\' branch', 'a name requested before / after main()')
@@ -82,7 +95,59 @@ def run(prog, check):
     if san is None:
         raise AnalysisError('alias pass (sanitiser) not found in Model')
     check.saw(san)
-    lookups = {t for n in ast.walk(san.node) if isinstance(n, ast.Assign) and isinstance(n.value, ast.Dict) for t in target_names(n.targets[0])}
+    # the private methods the pass runs through (calls and method values `fix = self._Helper`)
+    family = [san]
+    for f in family:
+        for n in ast.walk(f.node):
+            if isinstance(n, ast.Attribute) and isinstance(n.value, ast.Name) and n.value.id in ('self', M.name) and \
+                    n.attr.startswith('_') and n.attr in M.methods and M.methods[n.attr] not in family:
+                family.append(M.methods[n.attr])
+    REPL = ('replace_token_from_lookup', 'replace_token')
+    helpers = [f for f in family if f is not san and any(isinstance(c, ast.Call) and call_name(c) in REPL for c in ast.walk(f.node))]
+    helper_keys = {h.key for h in helpers}
+    san_flat = flatten(prog, san, accept=lambda callee: callee.key not in helper_keys)
+    for f in family:
+        check.saw(f)
+    lookups = {t for n in ast.walk(san_flat.node) if isinstance(n, ast.Assign) and isinstance(n.value, ast.Dict) for t in target_names(n.targets[0])}
+    # names bound to a helper as a method value
+    helper_aliases = {}
+    for n in ast.walk(san_flat.node):
+        if isinstance(n, ast.Assign) and len(n.targets) == 1 and isinstance(n.targets[0], ast.Name) and \
+                isinstance(n.value, ast.Attribute) and n.value.attr in {h.name for h in helpers}:
+            helper_aliases[n.targets[0].id] = n.value.attr
+
+    def is_replacer_call(c):
+        if not isinstance(c, ast.Call):
+            return False
+        nm = call_name(c)
+        if nm in REPL or nm in {h.name for h in helpers}:
+            return True
+        return isinstance(c.func, ast.Name) and c.func.id in helper_aliases
+
+    def backward_slice(value):
+        """expressions the value is computed from (flow-insensitive, through local names, list filling and loop targets)"""
+        exprs, names, work = [value], set(), [value]
+        while work:
+            e = work.pop()
+            for x in ast.walk(e):
+                if isinstance(x, ast.Name) and x.id not in names:
+                    names.add(x.id)
+                    for n in ast.walk(san_flat.node):
+                        new = []
+                        if isinstance(n, ast.Assign) and x.id in [t for tg in n.targets for t in target_names(tg)]:
+                            new.append(n.value)
+                        elif isinstance(n, ast.AugAssign) and x.id in target_names(n.target):
+                            new.append(n.value)
+                        elif isinstance(n, ast.Call) and call_name(n) in ('append', 'extend', 'insert') and \
+                                isinstance(n.func, ast.Attribute) and isinstance(n.func.value, ast.Name) and n.func.value.id == x.id:
+                            new.extend(n.args)
+                        elif isinstance(n, (ast.For, ast.comprehension)) and x.id in target_names(n.target):
+                            new.append(n.iter)
+                        for v in new:
+                            if not any(v is y for y in exprs):
+                                exprs.append(v)
+                                work.append(v)
+        return exprs
     # text sinks: Model list attributes appended by a public method with a caller-supplied value that is not float-forced
     sinks = {}
     for f in M.methods.values():
@@ -122,53 +187,74 @@ def run(prog, check):
             continue
         check.saw(f)
         rewritten = False
-        for n in ast.walk(san.node):
+        for n in ast.walk(san_flat.node):
+            value = None
             if isinstance(n, ast.Assign) and any(isinstance(t, ast.Attribute) and t.attr == attr for t in n.targets):
-                if any(isinstance(x, ast.Name) and x.id in lookups for x in ast.walk(n.value)):
-                    rewritten = True
-            if isinstance(n, ast.For) and attr in unparse(n.iter) and any(isinstance(x, ast.Name) and x.id in lookups for x in ast.walk(n)):
-                if any(isinstance(a, (ast.Assign, ast.AugAssign)) for a in ast.walk(n)):
-                    rewritten = True
+                value = n.value
+            elif isinstance(n, ast.Assign) and any(isinstance(t, ast.Subscript) and isinstance(t.value, ast.Attribute) and
+                                                   t.value.attr == attr for t in n.targets):
+                value = n.value
+            if value is None:
+                continue
+            sl = backward_slice(value)
+            reads_old = any(isinstance(x, ast.Attribute) and x.attr == attr and isinstance(x.ctx, ast.Load) for e in sl for x in ast.walk(e))
+            uses_lookup = any(is_replacer_call(c) and any(isinstance(x, ast.Name) and x.id in lookups for x in ast.walk(c))
+                              for e in sl for c in ast.walk(e))
+            if reads_old and uses_lookup:
+                rewritten = True
         check.ob('C05.R1', '%s::sink(%s)::rewritten-by-alias-pass' % (san.key, attr), rewritten, san.where,
                  'self.%s (%s) is rewritten with the alias lookup' % (attr, text_sinks[attr]) if rewritten else
                  'self.%s (%s) is not touched by the alias pass: a placeholder embedded there survives into the final equations' % (attr, text_sinks[attr]),
                  "AddGlobalEquation('W', '', '2*' + hh.GetVariableName('F')) before main()")
     # helpers through which the pass rewrites stored strings: returning the string unchanged needs a sound reason
-    helpers = []
-    for f in M.methods.values():
-        if f is san:
-            continue
-        if any(isinstance(c, ast.Call) and call_name(c) == f.name for c in ast.walk(san.node)) and \
-                any(isinstance(c, ast.Call) and call_name(c) in ('replace_token_from_lookup', 'replace_token') for c in ast.walk(f.node)):
-            helpers.append(f)
     for hf in helpers:
-        check.saw(hf)
         hp = hf.params()
         if hp and hp[0] == 'self':
             hp = hp[1:]
         sp = hp[0]
+        lk = hp[1] if len(hp) > 1 else None
         hg = cfgmod.build(hf)
+
+        def sound(e, val):
+            """the outcome `val` of test `e` is a sound reason to hand the string back unchanged"""
+            if isinstance(e, ast.UnaryOp) and isinstance(e.op, ast.Not):
+                return sound(e.operand, not val)
+            if isinstance(e, ast.BoolOp) and isinstance(e.op, ast.And):
+                rs = [sound(v, val) for v in e.values]
+                return (' or '.join(rs) if all(rs) else None) if not val else next((r for r in rs if r), None)
+            if isinstance(e, ast.BoolOp) and isinstance(e.op, ast.Or):
+                rs = [sound(v, val) for v in e.values]
+                return (' or '.join(rs) if all(rs) else None) if val else next((r for r in rs if r), None)
+            txt = unparse(e).replace(' ', '')
+            if txt in ('type(%s)isnotstr' % sp, 'notisinstance(%s,str)' % sp):
+                return 'not a string' if val else None
+            if txt in ('type(%s)isstr' % sp, 'isinstance(%s,str)' % sp, 'type(%s)==str' % sp):
+                return 'not a string' if not val else None
+            if isinstance(e, ast.Call) and call_name(e) == 'any' and len(e.args) == 1 and \
+                    isinstance(e.args[0], (ast.GeneratorExp, ast.ListComp)) and len(e.args[0].generators) == 1:
+                gen = e.args[0].generators[0]
+                lv = target_names(gen.target)
+                el = e.args[0].elt
+                if not gen.ifs and lk is not None and unparse(gen.iter) in (lk, lk + '.keys()') and isinstance(el, ast.Compare) and \
+                        len(el.ops) == 1 and isinstance(el.ops[0], ast.In) and unparse(el.left) in lv and unparse(el.comparators[0]) == sp:
+                    return 'no alias occurs in the string' if not val else None
+                return None
+            if lk is not None and txt in ('len(%s)==0' % lk,):
+                return 'empty lookup' if val else None
+            if lk is not None and txt in ('len(%s)>0' % lk, 'len(%s)!=0' % lk, lk):
+                return 'empty lookup' if not val else None
+            return None
         for rn in hg.stmt_nodes(lambda n: isinstance(n.ast, ast.Return)):
             v = rn.ast.value
             if not (isinstance(v, ast.Name) and v.id == sp):
                 continue
             ok, why = False, 'unconditional / unrecognised early return of the unmodified string'
+            for test, outcome in hg.conditions_at(rn):
+                r_ = sound(test, outcome)
+                if r_:
+                    ok, why = True, r_
             for t in hg.nodes:
-                if not hg.dominates(t, rn):
-                    continue
-                if t.kind == 'test':
-                    e = t.ast
-                    txt = unparse(e).replace(' ', '')
-                    te = [b for b, l in hg.succ[t.id] if l is True]
-                    on_true = rn.id in hg.reach(te, include_src=True) and rn.id not in hg.reach([b for b, l in hg.succ[t.id] if l is False], include_src=True)
-                    if on_true and (txt.startswith('type(%s)isnotstr' % sp) or txt.startswith('notisinstance(%s,str)' % sp)):
-                        ok, why = True, 'not a string'
-                    if on_true and isinstance(e, ast.UnaryOp) and isinstance(e.op, ast.Not) and isinstance(e.operand, ast.Call) and \
-                            call_name(e.operand) == 'any' and ' in %s ' % sp in ' ' + unparse(e.operand) + ' ':
-                        ok, why = True, 'no alias occurs in the string (not any(...))'
-                    if on_true and isinstance(e, ast.Compare) and isinstance(e.ops[0], ast.Eq) and 'len(' in txt and txt.endswith('==0'):
-                        ok, why = True, 'empty lookup'
-                if t.kind == 'for':
+                if t.kind == 'for' and hg.dominates(t, rn):
                     # loop over the lookup exhausted without a hit: every iteration tests `alias in s` and returns the replacement
                     lv = target_names(t.ast.target)
                     body_ok = any(isinstance(x, ast.If) and isinstance(x.test, ast.Compare) and isinstance(x.test.ops[0], ast.In) and
@@ -185,25 +271,22 @@ def run(prog, check):
                      'a global equation that embeds one of several registered placeholders')
     # sector blocks: the pass visits every sector
     all_sectors = any(isinstance(n, ast.For) and 'GetSectors' in unparse(n.iter) and any(
-        isinstance(c, ast.Call) and call_name(c) == '_ReplaceAliases' for c in ast.walk(n)) for n in ast.walk(san.node))
+        isinstance(c, ast.Call) and call_name(c) == '_ReplaceAliases' for c in ast.walk(n)) for n in ast.walk(san_flat.node))
     check.ob('C05.R1', '%s::sink(sector-blocks)::rewritten-by-alias-pass' % san.key, all_sectors, san.where,
              'every sector\'s equation block is rewritten' if all_sectors else 'not every sector block is rewritten', 'any placeholder in a sector equation')
     # the lookup maps each alias to the canonical name of its (sector, variable)
     okmap = any(isinstance(n, ast.Assign) and isinstance(n.targets[0], ast.Subscript) and unparse(n.targets[0].value) in lookups and
-                isinstance(n.value, ast.Call) and call_name(n.value) == 'GetVariableName' for n in ast.walk(san.node))
+                isinstance(n.value, ast.Call) and call_name(n.value) == 'GetVariableName' for n in ast.walk(san_flat.node))
     check.ob('C05.R1', '%s::lookup-maps-to-canonical-names' % san.key, okmap, san.where,
              'lookup[alias] = sector.GetVariableName(local name)' if okmap else 'the alias lookup is not built from GetVariableName', '')
     # the block-level replacement is token based and reaches blobs as well as simple terms
-    T = prog.classes.get('Term')
-    rt = T.methods.get('ReplaceTokensFromLookup') if T else None
-    if rt is not None:
-        check.saw(rt)
-        n_tok = sum(1 for c in ast.walk(rt.node) if isinstance(c, ast.Call) and call_name(c) == 'replace_token_from_lookup')
-        blob = any(isinstance(n, ast.If) and 'IsBlob' in unparse(n.test) and any(
-            isinstance(c, ast.Call) and call_name(c) == 'replace_token_from_lookup' for c in ast.walk(n)) for n in ast.walk(rt.node))
-        check.ob('C05.R1', '%s::token-level-for-blobs-and-terms' % rt.key, n_tok >= 2 and blob, rt.where,
-                 'aliases are replaced token-wise in opaque and in simple terms' if (n_tok >= 2 and blob) else
-                 'alias replacement skips opaque terms or is not token based', 'a placeholder inside a complex expression')
+    from ._common import term_rename
+    rt, tstores, all_paths = term_rename(prog)
+    check.saw(rt)
+    tok = all_paths and all(ok_ for _, ok_, _ in tstores)
+    check.ob('C05.R1', '%s::token-level-for-blobs-and-terms' % rt.key, tok, rt.where,
+             'aliases are replaced token-wise in opaque and in simple terms' if tok else
+             'alias replacement skips opaque terms or is not token based', 'a placeholder inside a complex expression')
     # ---- R2 ----------------------------------------------------------------------------------------
     main = M.methods.get('main')
     if main is None:
@@ -232,19 +315,34 @@ def run(prog, check):
     if cf is None:
         raise AnalysisError('Sector._CreateFinalEquations not found')
     check.saw(cf)
-    loops = [n for n in ast.walk(cf.node) if isinstance(n, ast.For)]
-    lk_loop = [n for n in loops if any(isinstance(a, ast.Assign) and isinstance(a.targets[0], ast.Subscript) for a in ast.walk(n))]
+    cf = flatten(prog, cf)
+    csub = single_assign_subst(cf.node)
+    gcf = cfgmod.build(cf)
+
+    def all_variables(it):
+        txt = unparse(resolve_expr(it, csub))
+        return 'GetEquationList' in txt or 'GetVariables' in txt or 'Equations' in txt
     ok = False
     lkname = None
-    for n in lk_loop:
-        v = target_names(n.target)[0]
-        for a in ast.walk(n):
-            if isinstance(a, ast.Assign) and isinstance(a.targets[0], ast.Subscript) and unparse(a.targets[0].slice) == v and \
-                    isinstance(a.value, ast.Call) and call_name(a.value) == 'GetVariableName' and unparse(a.value.args[0]) == v:
-                filt = any(isinstance(x, (ast.If, ast.Continue, ast.Break)) for x in ast.walk(n))
-                allv = 'GetEquationList' in unparse(n.iter) or 'GetVariables' in unparse(n.iter) or 'Equations' in unparse(n.iter)
-                ok = allv and not filt
-                lkname = unparse(a.targets[0].value)
+    # lookup[v] = self.GetVariableName(v) for every variable: loop form or dict comprehension
+    for n in ast.walk(cf.node):
+        if isinstance(n, ast.For):
+            v = target_names(n.target)[:1]
+            for a_ in ast.walk(n):
+                if isinstance(a_, ast.Assign) and isinstance(a_.targets[0], ast.Subscript) and v and unparse(a_.targets[0].slice) == v[0] and \
+                        isinstance(a_.value, ast.Call) and call_name(a_.value) == 'GetVariableName' and a_.value.args and unparse(a_.value.args[0]) == v[0]:
+                    facts = [f_ for f_ in gcf.conditions_at(gcf.node_of(a_))]
+                    filt = bool(facts) or any(isinstance(x, ast.Break) for x in ast.walk(n))
+                    ok = all_variables(n.iter) and not filt
+                    lkname = unparse(a_.targets[0].value)
+        if isinstance(n, ast.Assign) and isinstance(n.value, ast.DictComp) and len(n.value.generators) == 1 and \
+                len(n.targets) == 1 and isinstance(n.targets[0], ast.Name):
+            gen = n.value.generators[0]
+            v = target_names(gen.target)[:1]
+            if v and unparse(n.value.key) == v[0] and isinstance(n.value.value, ast.Call) and call_name(n.value.value) == 'GetVariableName' \
+                    and n.value.value.args and unparse(n.value.value.args[0]) == v[0]:
+                ok = all_variables(gen.iter) and not gen.ifs and not gcf.conditions_at(gcf.node_of(n))
+                lkname = n.targets[0].id
     check.ob('C05.R3', '%s::lookup-covers-all-variables' % cf.key, ok, cf.where,
              'lookup[local] = canonical name for every variable of the sector' if ok else
              'the qualification lookup is built from a subset of the variables', 'an equation referring to a variable left out')
@@ -253,13 +351,36 @@ def run(prog, check):
     check.ob('C05.R3', '%s::token-level-qualification' % cf.key, applied, cf.where,
              'right-hand sides are qualified with the token-level replacer' if applied else 'right-hand sides are not qualified token-wise with the full lookup',
              'a variable whose name is a prefix of another')
-    lhs = any(isinstance(c, ast.Call) and call_name(c) == 'append' and c.args and isinstance(c.args[0], ast.Tuple) and
-              isinstance(c.args[0].elts[0], ast.Call) and call_name(c.args[0].elts[0]) == 'GetVariableName' for c in ast.walk(cf.node))
+    row_appends = [c for c in ast.walk(cf.node) if isinstance(c, ast.Call) and call_name(c) == 'append' and c.args and
+                   isinstance(resolve_expr(c.args[0], csub), ast.Tuple)]
+    lhs = bool(row_appends)
+    for c in row_appends:
+        tup = resolve_expr(c.args[0], csub)
+        e0 = tup.elts[0] if tup.elts else None
+        lhs = lhs and isinstance(e0, ast.Call) and call_name(e0) == 'GetVariableName'
     check.ob('C05.R3', '%s::canonical-left-hand-side' % cf.key, lhs, cf.where,
              'each row is (canonical name, qualified rhs, description)' if lhs else 'the left-hand side is not the canonical name', 'any variable')
-    skip = [n for n in ast.walk(cf.node) if isinstance(n, ast.Continue)]
-    okskip = all(isinstance(getattr(n, '_parent', None), ast.If) and 'strip()' in unparse(n._parent.test) and '== 0' in unparse(n._parent.test)
-                 for n in skip)
+
+    def emptiness(e, val):
+        """True when the outcome says "the right-hand side is not empty" (the only reason a row may depend on)"""
+        txt = unparse(resolve_expr(e, csub)).replace(' ', '')
+        if 'strip()' not in txt:
+            return False
+        if txt.startswith('len(') and (txt.endswith('==0')):
+            return val is False
+        if txt.startswith('len(') and (txt.endswith('>0') or txt.endswith('!=0') or txt.endswith('>=1')):
+            return val is True
+        if txt.endswith(".strip()==''"):
+            return val is False
+        if txt.endswith(".strip()!=''") or txt.endswith('.strip()'):
+            return val is True
+        return False
+    okskip = bool(row_appends)
+    for c in row_appends:
+        for test, outcome in gcf.conditions_at(gcf.node_of(stmt_of(c))):
+            for txt, val, e in atomic_facts(test, outcome):
+                if not emptiness(e, val):
+                    okskip = False
     check.ob('C05.R3', '%s::no-variable-dropped' % cf.key, okskip, cf.where,
              'only empty right-hand sides are skipped' if okskip else 'a variable with a non-empty equation can be dropped from the final text',
              'every variable is defined exactly once')
